@@ -11,9 +11,9 @@ from mc.ref import dynamics as rd
 DK = ("R", "C", "L", "V", "I")
 # ids that interleave current sources, voltage sources, inductors and passives alphabetically
 ID_SCHEMES = {
-    "asc": ["A", "Is", "L", "R", "Vs", "Z", "b", "c"],
-    "desc": ["c", "b", "Z", "Vs", "R", "L", "Is", "A"],
-    "mix": ["L", "A", "Z", "Is", "b", "Vs", "R", "c"],
+    "asc": ["A", "IsA", "L", "R", "VsR", "Z", "b", "c"],
+    "desc": ["c", "b", "Z", "VsR", "R", "L", "IsA", "A"],
+    "mix": ["L", "A", "Z", "IsA", "b", "VsR", "R", "c"],
 }
 
 
